@@ -23,14 +23,15 @@ DIRECTED = ["lyric x", "section x", "x", "lyric", "section", "lyric ", "section 
             "lyric \"q\"", "section \"q\" r", "lyric a\"", "lyric \"", "section \"", "lyric a\" ", "section  two  spaces ", " lyric x",
             "lyric  x", "lyric\tx", "lyric lyric x", "section lyric x", "lyric section x", "a \"q\" b", "\"", "x\"", "", " ",
             "phrase_start", "lyric =", "section [x] {y}", "lyric é世", "section  ", "E \"x\"", "5 = E \"x\"",
-            "lyric 5 = E \"lyric y\"", "section 5 = E \"section y\"", "lyric x", "section　x", "lyric \\", "text \"",
+            "lyric 5 = E \"lyric y\"", "section 5 = E \"section y\"", "section 5 = E \"lyric x", "lyric 7 = E \"section y", "section 3 = E \"x",
+            "lyric 3 = E \"x\"", "section 12 = E \"lyric a\" b", "lyric  9 = E \"section q\"", "lyric x", "section　x", "lyric \\", "text \"",
             "section Solo 1", "lyric +", "lyric Hel-", "music_start", "[Events]", "{", "}", "lyric }", "section {"]
 
 
 def required(tier):
     return ["kind:lyric", "kind:section", "kind:text", "inner_quote_in_lyric_or_section", "keyword_without_blank_is_text",
             "empty_remainder", ">=2_kinds_in_one_chart", "repeated_tick", "concurrent_stage", "ticks_not_in_file_order_within_one_tempo_segment",
-            "long_runs_of_one_kind_then_another"]
+            "long_runs_of_one_kind_then_another", "unclaimed_lines_among_the_events"]
 
 
 def shards(tier, seed):
@@ -72,10 +73,16 @@ def make_case(rng, i):
     truth = {"resolution": res, "tempos": tempos, "timesigs": [[0, 4, None]]}
     case = gen.render_truth(truth)
     truth["globals"] = globals_
-    secs = [(n_, b) if n_ != "Events" else (n_, lines) for n_, b in case["sections"]]
+    junk = 0
+    if i % 4 == 2:
+        # lines nobody claims (blank, garbage, foreign) inside [Events] and at the end of [SyncTrack]: skipped, nothing else changes
+        for _ in range(rng.choice([1, 2, 5])):
+            lines.insert(rng.randint(0, len(lines)), rng.choice(["", "  ", "garbage", "  5 = N 0 0", "  5 = E unquoted", "  = E \"x\""]))
+            junk += 1
+    secs = [(n_, b + (["", "  "] if junk else [])) if n_ == "SyncTrack" else ((n_, b) if n_ != "Events" else (n_, lines)) for n_, b in case["sections"]]
     if rng.random() < 0.3:
         rng.shuffle(secs)
-    return {"text": gen.render_sections(secs, "\r\n" if i % 4 == 3 else "\n"), "truth": truth}, texts, ticks
+    return {"text": gen.render_sections(secs, "\r\n" if i % 4 == 3 else "\n"), "truth": truth, "junk": junk}, texts, ticks
 
 
 def run_shard(shard, rec, tier, seed):
@@ -111,6 +118,8 @@ def run_shard(shard, rec, tier, seed):
                 best = max(best, run)
             if best >= 17 and len(set(ks)) >= 2:
                 rec.cls("long_runs_of_one_kind_then_another")
+            if case.get("junk"):
+                rec.cls("unclaimed_lines_among_the_events")
         if i < 2:
             rec.sample({"events_section": [ln for ln in case["text"].splitlines() if " = E " in ln][:8]})
         if rec.full:
